@@ -70,6 +70,7 @@ func VerifC10_QueriesOnEmptyAndNullData() {
 				}
 			}
 		})
-		verifrt.Assert(!panicked, "C10 querying an empty store / null fields does not panic: "+q+" ("+msg+")")
+		verifrt.Logf("panic message (if any): %v", msg) // not part of the label: executor and native wording differ
+		verifrt.Assert(!panicked, "C10 querying an empty store / null fields does not panic: "+q+"")
 	})
 }
